@@ -22,6 +22,12 @@ ASSUMPTIONS = []
 
 def check(ctx):
     a = ctx.a
+    # "every pending request fails": the loss drains the registries, so whatever is pending has to be in one.  A held-back publish pushed
+    # out of a bounded queue by a later one is in none - its Deferred is never failed (C10's unbounded-queue rule)
+    from .common import run_premise
+    run_premise(ctx, "C10", "X-DRAIN", "held-back", "every accepted publish stays in the queue until it is sent",
+                "a held-back publish that the queue dropped is in no registry when the connection is lost: its Deferred never fails",
+                only=lambda f: f.construct.endswith("/bounded-queue"))
     caps, pm, _ = capabilities(a)
     n = 0
     for cls in a.protos[1:]:
@@ -75,6 +81,14 @@ def check(ctx):
                        construct="%s/loss/fired-handle/%s" % (cls.qual, ".".join(loc)),
                        msg="%s leaves its fired handle in %s; connectionLost cancels it, AlreadyCalled skips the whole clean-up" % (short(ent.func.qual), ".".join(loc)))
                 break
+        seen_ul = set()
+        for tr, e, loc, tr2, e2 in hd.unstarted_loops():
+            if (e.func, loc) in seen_ul or not (tr2.kind == "LOSS"):
+                continue
+            seen_ul.add((e.func, loc))
+            ctx.ob("X-REACH", "%s no periodic call is stored without being started (%s)" % (cq, tr.label()), False, where=where(e), function=e.func,
+                   construct="%s/loop-created-not-started/%s" % (e.func, ".".join(loc)),
+                   msg="%s creates the periodic call stored in %s without starting it; %s (%s) finds it not None and calls stop() on a loop that is not running: LoopingCall.stop() asserts - %s" % (tr.label(), ".".join(loc), tr2.label(), where(e2), 'the AssertionError leaves connectionLost before anything pending is failed'))
         for tr, e, loc, tr2, e2 in hd.cancelled_kept():
             ctx.ob("X-REACH", "%s clean-up is not skipped by a handle cancelled twice (%s)" % (cq, tr.label()), False, where=where(e), function=e.func,
                    construct="%s/cancelled-handle-kept/%s" % (e.func, ".".join(loc)),
